@@ -638,7 +638,7 @@ def contexts(quick):
         ("loop-header", lambda E: [("For", ("Sym", "q"), ("List", [E]), [call("p", V("q"))])]),
         ("closure-body", lambda E: [("Let", ("Sym", "f"), None, ("Lambda", [], None, [E])), call("p", call("f"))]),
         ("local-run", lambda E: [("Let", ("Sym", "t"), None, E), ("Let", ("Sym", "u"), None, ("Tuple", [V("t"), V("t")])), call("p", I(0))]),
-        ("local-run-last", lambda E: [call("p", I(0)), ("Let", ("Sym", "t"), None, E), ("Tuple", [V("t"), I(0)])]),
+        ("local-run-last", lambda E: [call("p", I(0)), ("Let", ("Sym", "t"), None, E), call("string_repr", ("Tuple", [V("t"), I(0)]))]),
     ]
     if not quick:
         cs += [
